@@ -184,6 +184,12 @@ func checkC03(p *Prog, r *Report) {
 				}
 				local = false
 				why = append(why, x.String())
+			case "call":
+				if pooledByReader(rfn, x.V) {
+					continue
+				}
+				local = false
+				why = append(why, x.String())
 			default:
 				local = false
 				why = append(why, x.String())
@@ -1184,13 +1190,29 @@ func checkBodyUntouched(p *Prog, r *Report, ru *Rule) {
 // pooledByReader: v is *p with p taken from a sync.Pool inside fn, and every
 // Put of p is made by a call fn defers (directly or in a deferred literal).
 func pooledByReader(fn *ssa.Function, v ssa.Value) bool {
-	ld, ok := v.(*ssa.UnOp)
-	if !ok || token.MUL != ld.Op {
-		return false
-	}
-	ta, ok := resolveCell(ld.X).(*ssa.TypeAssert)
-	if !ok || ta.Parent() != fn {
-		return false
+	var ta *ssa.TypeAssert
+	if g, isCall := v.(*ssa.Call); isCall && "(*sync.Pool).Get" == calleeName(g.Common()) {
+		/* A pointer to an array taken from the pool and sliced. */
+		for _, ref := range *g.Referrers() {
+			if t, ok := ref.(*ssa.TypeAssert); ok && !t.CommaOk {
+				if nil != ta {
+					return false
+				}
+				ta = t
+			}
+		}
+		if nil == ta || ta.Parent() != fn {
+			return false
+		}
+	} else {
+		ld, ok := v.(*ssa.UnOp)
+		if !ok || token.MUL != ld.Op {
+			return false
+		}
+		ta, ok = resolveCell(ld.X).(*ssa.TypeAssert)
+		if !ok || ta.Parent() != fn {
+			return false
+		}
 	}
 	get, ok := ta.X.(*ssa.Call)
 	if !ok || "(*sync.Pool).Get" != calleeName(get.Common()) {
@@ -1221,5 +1243,31 @@ func pooledByReader(fn *ssa.Function, v ssa.Value) bool {
 			}
 		})
 	}
+	/* Handed back by a deferred call of a function of the module which
+	puts its parameter into the pool. */
+	eachInstr(fn, func(i ssa.Instruction) {
+		d, ok := i.(*ssa.Defer)
+		if !ok {
+			return
+		}
+		g := d.Common().StaticCallee()
+		if nil == g || nil == g.Blocks {
+			return
+		}
+		for k, a := range d.Common().Args {
+			if resolveCell(stripConv(a, false)) != ssa.Value(ta) || k >= len(g.Params) {
+				continue
+			}
+			eachInstr(g, func(j ssa.Instruction) {
+				c := callCommon(j)
+				if nil == c || "(*sync.Pool).Put" != calleeName(c) || len(c.Args) < 2 {
+					return
+				}
+				if resolveCell(stripConv(c.Args[1], false)) == ssa.Value(g.Params[k]) {
+					puts++
+				}
+			})
+		}
+	})
 	return okAll && puts > 0
 }
